@@ -5,8 +5,7 @@ Local Open Scope Z_scope.
 (* Finite statements closed by exhaustive evaluation inside Coq (all 4096 / 4096 / 6561 interleaving prefixes, each completed
    round-robin): exactly one successful execution of the function, every caller returns (the caller whose attempt threw gets
    the exception and a later/concurrent caller retries), the flag ends `done`, and no helper ever touches a runner that has
-   already been destroyed.  Bounded results about these configurations — the unbounded invariant (OInv in OnceProofs.v) is
-   stated but not yet proved (DESIGN.md, C19 partial). *)
+   already been destroyed.  Bounded results about these configurations; the unbounded theorems are at the end of this file. *)
 Theorem call_once_small_configurations :
   explore_once [[false]; [false]] 12 = true /\
   explore_once [[true; false]; [false]] 12 = true /\
@@ -26,3 +25,33 @@ Theorem call_once_all_interleavings : forall throws c,
   In throws once_configs -> reach ostep (oinit throws) c -> once_good c = true.
 Proof. exact once_all_interleavings. Qed.
 Print Assumptions call_once_all_interleavings.
+
+(* UNBOUNDED: any number of callers, any pattern of throwing attempts (each caller carries its own list), any interleaving
+   (inductive invariant J of OnceInv.v, proved preserved by every atomic step of every thread).
+   o_bad_access counts accesses to a runner object after its destruction; o_success counts successful completions of the function. *)
+From OTV Require Import OnceInv.
+Theorem call_once_safety : forall throws c, reach ostep (oinit throws) c ->
+  o_bad_access (fst c) = 0 /\ 0 <= o_success (fst c) <= 1 /\
+  (forall i l, nth_error (snd c) i = Some l -> ol_pc l = ORetOk -> o_success (fst c) = 1 /\ o_word (fst c) = Done).
+Proof. exact once_safety_proof. Qed.
+Print Assumptions call_once_safety.
+
+(* no reachable configuration is stuck: whenever no thread can take a step, every caller has returned (so the spin-waits of
+   set_completion_state, ~runner, the reference window and assist() always have somebody who can release them) *)
+Theorem call_once_never_stuck : forall throws c, reach ostep (oinit throws) c ->
+  (forall i, step_at ostep c i = None) -> forall i l, nth_error (snd c) i = Some l -> OnceInv.returned l = true.
+Proof. exact once_no_deadlock_proof. Qed.
+Print Assumptions call_once_never_stuck.
+
+(* when every caller has returned: exactly one successful execution and the flag is done — or every attempt threw, every caller
+   got its own exception and the flag is back in the not-called state *)
+Theorem call_once_outcome : forall throws c, reach ostep (oinit throws) c ->
+  (forall i l, nth_error (snd c) i = Some l -> OnceInv.returned l = true) ->
+  (o_word (fst c) = Done /\ o_success (fst c) = 1) \/
+  (o_word (fst c) = Uninit /\ o_success (fst c) = 0 /\ forall i l, nth_error (snd c) i = Some l -> ol_pc l = ORetExc).
+Proof. exact once_final_proof. Qed.
+Print Assumptions call_once_outcome.
+
+Theorem once_run_is_reachable : forall throws sched c evs, run ostep (oinit throws) sched = (c, evs) -> reach ostep (oinit throws) c.
+Proof. intros throws sched c evs H. exact (run_reach ostep sched _ _ _ H). Qed.
+Print Assumptions once_run_is_reachable.
